@@ -172,7 +172,88 @@ def jobs(prop, tier, seed):
         for op in ("find", "put", "half", "maybe"):
             out.append(dict(harness="C19", variant="args", pid=f"args({al},{op})", aliaser=al, op=op, opts={}, bounds={}, budget_s=60 if tier == "quick" else 300))
     out.append(dict(harness="C19", variant="types", pid="types", aliaser="camel", opts={}, bounds={}, budget_s=20))
+    for name in BUILD_CASES:
+        out.append(dict(harness="C19", variant="build", pid=f"build({name})", case=name, aliaser="camel", opts={}, bounds={}, budget_s=20))
     return out
+
+
+# small schemas built on their own: (source, resolvers, expected Query.<field> args, query, expected data, expected call log)
+BUILD_CASES = {
+    "input_default_factory": dict(
+        src="@dataclass\nclass In2:\n    a: int\n    tags: List[int] = field(default_factory=list)\n    m: Dict[str, int] = field(default_factory=dict)\n"
+        "def put2(inp: In2) -> int:\n    LOG.append(('put2', inp))\n    return inp.a\n",
+        query_fields=["put2"], args={"put2": {"inp": "In2Input!"}},
+        query="{ put2(inp: {a: 4}) }", data={"put2": 4}, log="[('put2', In2(4, [], {}))]",
+    ),
+    "param_default_unhashable": dict(
+        src="def total(xs: List[int] = [1, 2]) -> int:\n    LOG.append(('total', xs))\n    return len(xs)\n",
+        query_fields=["total"], args={"total": {"xs": "[Int!]!"}},
+        query="{ total }", data={"total": 2}, log="[('total', [1, 2])]",
+    ),
+    "info_first": dict(
+        src="def with_info(info: graphql.GraphQLResolveInfo, n: int = 1) -> int:\n    LOG.append(('with_info', n))\n    return n\n",
+        query_fields=["with_info"], args={"withInfo": {"n": "Int!"}},
+        query="{ withInfo(n: 3) }", data={"withInfo": 3}, log="[('with_info', 3)]",
+    ),
+    "info_middle": dict(
+        src="def mid(a: int, info: graphql.GraphQLResolveInfo, b: Optional[int] = None) -> int:\n    LOG.append(('mid', a, b))\n    return a\n",
+        query_fields=["mid"], args={"mid": {"a": "Int!", "b": "Int"}},
+        query="{ mid(a: 1, b: 2) }", data={"mid": 1}, log="[('mid', 1, 2)]",
+    ),
+}
+BUILD_HEAD = """
+from dataclasses import dataclass, field
+from typing import *
+import graphql
+from apischema.graphql import graphql_schema
+LOG = []
+"""
+
+
+class Build:
+    """concrete side condition: the schema of a small program builds, declares the arguments of
+    the resolver's signature and executes a query like a plain call"""
+
+    def __init__(self, job):
+        self.method_note = "concrete: one schema build and one query per case"
+        self.job = job
+        self.case = BUILD_CASES[job["case"]]
+        self.functions = ["apischema.graphql.schema.graphql_schema", "apischema.graphql.schema.OutputSchemaBuilder._resolver", "apischema.graphql.schema.InputSchemaBuilder._field"]
+        self.expect_tags = ["built"]
+        self.assumptions = []
+        self.relax = ()
+
+    def body(self, ctx: Ctx):
+        from crosshair.tracers import NoTracing
+
+        ctx.notes["tag:built"] = True
+        ctx.witness = self.job["case"]
+        ctx.run_phase()
+        if ctx.concrete is not None:
+            return self.check()
+        with NoTracing():
+            return self.check()
+
+    def check(self):
+        import graphql
+
+        C = self.case
+        mod = exec_module("vf_c19b", BUILD_HEAD + C["src"])
+        try:
+            schema = mod.graphql_schema(query=[getattr(mod, n) for n in C["query_fields"]])
+        except Exception as e:
+            return Failure("schema-build-raises", type(e).__name__, witness=self.job["case"], extra={"exc": type(e).__name__})
+        q = schema.type_map["Query"]
+        for fname, args in C["args"].items():
+            got = {k: str(a.type) for k, a in q.fields[fname].args.items()}
+            if got != args:
+                return Failure("argument-mapping-differs", witness=self.job["case"], extra={"field": fname, "graphql": got, "expected": args})
+        res = graphql.graphql_sync(schema, C["query"])
+        if res.errors or res.data != C["data"]:
+            return Failure("query-result-differs", witness=self.job["case"], extra={"data": res.data, "errors": [str(e) for e in res.errors or []]})
+        if mod.LOG != eval(C["log"], mod.__dict__):
+            return Failure("resolver-not-invoked-with-deserialized-arguments", witness=self.job["case"], extra={"log": repr(mod.LOG)})
+        return None
 
 
 class Inst:
@@ -446,4 +527,4 @@ class Inst:
 
 
 def make(job):
-    return Inst(job)
+    return Build(job) if job["variant"] == "build" else Inst(job)
